@@ -38,6 +38,7 @@ theorem started_of_launched {P : Program} {d : DagRef} {val : Node → Option Va
   | slept => simp [isRunnable] at hr
   | doneOk h1 => exact h1
   | doneExc e h1 => exact h1
+  | doneExcSaved e h1 => exact h1
 
 /-- **C06 (plain pipelines)**: in an idle state of a pending run, every node whose lower depths have all completed
 has been started, whatever the other nodes of its depth are doing -/
